@@ -7,8 +7,10 @@ import (
 	"os"
 	"path/filepath"
 	"regexp"
+	"runtime"
 	"strconv"
 	"sync"
+	"sync/atomic"
 	"testing"
 	"time"
 )
@@ -105,6 +107,7 @@ type Evidence struct {
 	start       time.Time
 	known       []knownFinding
 	replaySeq   int
+	progress    atomic.Int64 // bumped by every recorded or skipped case
 }
 
 func newEvidence(property, level, rule string) *Evidence {
@@ -125,11 +128,35 @@ func newEvidence(property, level, rule string) *Evidence {
 		}
 		return nil
 	})
+	go e.progressWatch()
 	return e
+}
+
+// progressWatch ends a process in which no case has completed for a very long
+// time (the longest legitimate case of any check takes well under a minute).
+// This is not a verdict: the goroutine dump goes to the output, which the
+// driver keeps, and the run counts as infrastructure trouble (exit 2).
+func (e *Evidence) progressWatch() {
+	last, since := int64(-1), time.Now()
+	for {
+		time.Sleep(5 * time.Second)
+		if n := e.progress.Load(); n != last {
+			last, since = n, time.Now()
+			continue
+		}
+		if time.Since(since) < 6*time.Minute {
+			continue
+		}
+		buf := make([]byte, 4<<20)
+		buf = buf[:runtime.Stack(buf, true)]
+		fmt.Fprintf(os.Stderr, "NO PROGRESS for %s after %d cases of %s; goroutines:\n%s\n", time.Since(since).Round(time.Second), last, e.Property, buf)
+		os.Exit(4)
+	}
 }
 
 // Record notes one evaluated case.
 func (e *Evidence) Record(c interface{}, nontrivial bool, classes ...string) {
+	e.progress.Add(1)
 	e.mu.Lock()
 	defer e.mu.Unlock()
 	e.Evaluations++
@@ -150,6 +177,7 @@ func (e *Evidence) Record(c interface{}, nontrivial bool, classes ...string) {
 // RecordEnumerated notes one case of an enumeration whose cases are distinct
 // by construction (also across shards), so no hash needs to be kept.
 func (e *Evidence) RecordEnumerated(c interface{}, nontrivial bool, classes ...string) {
+	e.progress.Add(1)
 	e.mu.Lock()
 	defer e.mu.Unlock()
 	e.Evaluations++
@@ -165,12 +193,14 @@ func (e *Evidence) RecordEnumerated(c interface{}, nontrivial bool, classes ...s
 }
 
 func (e *Evidence) Class(name string, n int) {
+	e.progress.Add(1)
 	e.mu.Lock()
 	e.Classes[name] += n
 	e.mu.Unlock()
 }
 
 func (e *Evidence) Skip() {
+	e.progress.Add(1)
 	e.mu.Lock()
 	e.Skipped++
 	e.mu.Unlock()
